@@ -23,10 +23,12 @@ CONFIGS = {
     # name: (cxxflags, use x86-64 assembly sources)
     "asm": (REL, True),
     "c64": (REL + ["-DDISABLE_ASM"], False),
-    "c32": (REL + ["-DDISABLE_ASM", "-U__SIZEOF_INT128__"], False),
+    # portable 32-bit words, with the ABI choices of the library's ARM targets that a host build can reproduce: plain char is
+    # unsigned there (AAPCS), and the embedded tool-chain flags shorten enums
+    "c32": (REL + ["-DDISABLE_ASM", "-U__SIZEOF_INT128__", "-funsigned-char", "-fshort-enums"], False),
     "san-asm": (SAN, True),
     "san-c64": (SAN + ["-DDISABLE_ASM"], False),
-    "san-c32": (SAN + ["-DDISABLE_ASM", "-U__SIZEOF_INT128__"], False),
+    "san-c32": (SAN + ["-DDISABLE_ASM", "-U__SIZEOF_INT128__", "-funsigned-char", "-fshort-enums"], False),
     "instr": (["-O1", "-fno-inline", "-finstrument-functions"], True),
     "tsan": (["-O1", "-g", "-fsanitize=thread"], True),
     # mirrors of the embedded flags that matter for external references (C20 symbol audit)
@@ -73,6 +75,8 @@ def tree_hash():
         with open(f, "rb") as fh:
             h.update(fh.read())
         h.update(b"\0")
+    # the build recipes take part too (a changed flag set must rebuild)
+    h.update(repr(sorted(CONFIGS.items())).encode())
     # harness sources take part: a changed shim must rebuild
     for f in sorted(glob.glob(os.path.join(VERIF, "harness", "*"))):
         if os.path.isfile(f):
